@@ -146,7 +146,7 @@ class Runaway(Exception):
 
 
 LIMIT_CALLS = 20000
-LIMIT_SECONDS = 3.0
+LIMIT_SECONDS = 10.0      # CPU seconds of this process (ITIMER_PROF): wall-clock time would make the verdict depend on the load of the machine
 
 
 def _alarm(sig, frm):
@@ -273,7 +273,7 @@ def run_impl(EoN, sim, case, draws, full=None):
     import signal
     gc = case['gc']
     s = Keyed(draws, case)
-    old = signal.signal(signal.SIGALRM, _alarm); signal.setitimer(signal.ITIMER_REAL, LIMIT_SECONDS)
+    old = signal.signal(signal.SIGPROF, _alarm); signal.setitimer(signal.ITIMER_PROF, LIMIT_SECONDS)
     try:
         if case['kind'] == 'PERC':
             st, val = R.run_impl(lambda: EoN.percolate_network(gc.G, float(case['p'])), s, sim)
@@ -282,7 +282,7 @@ def run_impl(EoN, sim, case, draws, full=None):
     except Runaway:
         st, val = 'EXC', 'Runaway'
     finally:
-        signal.setitimer(signal.ITIMER_REAL, 0); signal.signal(signal.SIGALRM, old)
+        signal.setitimer(signal.ITIMER_PROF, 0); signal.signal(signal.SIGPROF, old)
     out = {'status': st, 'log': s.log, 'used': s.i, 'qlog': s.qlog, 'plog': s.plog, 'rlog': s.rlog, 'calls': s.calls, 'hlog': s.hlog}
     if st == 'EXC': out['err'] = val
     if st == 'OK' and case['kind'] == 'PERC':
